@@ -1079,6 +1079,8 @@ func TestVF_C08(t *testing.T) {
 			}
 		}
 		vfBubbles(t, len(ov), func(t *testing.T, i int) { vfC08OddVersionHello(res, ov[i][0], ov[i][1]) })
+		// an authenticated peer that is already done sends far more application records than are held for the first Read
+		vfBubbles(t, 21, func(t *testing.T, i int) { vfEarlyDataRun(t, res, i, 150) })
 		vfC08ListenerFlood(res, "12")
 		vfC08ListenerFlood(res, "13")
 		vfC08ListenerEmptyDatagram(res, "12")
